@@ -450,7 +450,8 @@ def st_list_case(draw):
           rule="FeatureSettings over all family combinations (semilocal mode x NLDF x FracLapl x SDMX) with default, "
                "recommended or drawn normaliser lists x rho x "
                "nspin x 1-3 grid points; oracles: ueg_vector(rho) is the concatenation of the family vectors and has nfeat "
-               "entries; ueg_vector(rho, True) == get_normalized_feature_vector(raw UEG block) (1e-12); "
+               "entries; every row of get_normalized_feature_vector(raw UEG block) == that normaliser's fill_fwd at inh_ueg (1 for "
+               "nst/npa, 0 for ns/np); ueg_vector(rho, True) == get_normalized_feature_vector(raw UEG block) (1e-12); "
                "non-trivial = >= 2 families and a non-constant normaliser",
           tolerances={"rtol": 1e-12})
 def list_ueg(case, ctx):
@@ -474,6 +475,14 @@ def list_ueg(case, ctx):
     nonconst = any(x is not None and type(x).__name__ != "ConstantNormalizer" for x in (fs.normalizers[i] for i in range(fs.nfeat)))
     if sum(spec[k] is not None for k in ("nldf", "nlof", "sdmx")) >= 2 and nonconst:
         ctx.nontrivial([G.class_label(spec), spec["normalizers"]["kind"], round(math.log10(n))])
+    # the list's own inhomogeneity argument at the UEG point: each row must equal that normaliser's fill_fwd at
+    # (rho, inh_ueg) with inh_ueg = 1 (meta-GGA modes) / 0 (GGA modes) -- independent of get_ueg
+    inh = ueg_inh(spec["sl"]["mode"])
+    for i in range(fs.nfeat):
+        nm = fs.normalizers[i]
+        want_i = raw[i] if nm is None else float(nm.fill_fwd(np.array([raw[i]]), np.array([n]), np.array([inh]))[0])
+        ctx.close(comp[:, i, :], np.full(comp[:, i, :].shape, want_i), ("computed_vs_fill_fwd", spec["sl"]["mode"]), rtol=1e-12,
+                  scale=abs(want_i) + 1e-300, row=i)
     scale = np.maximum(np.abs(rep), 1e-300)
     for s in range(case["nspin"]):
         for g in range(case["ngrid"]):
